@@ -15,7 +15,7 @@ def action_string(eng, t):
     adt = None
     x = t
     for _ in range(8):
-        if x[0] == 'adt' and x[1].endswith('ContractAction'): adt = x; break
+        if x[0] == 'adt' and x[1] in eng.s.get('serde', {}).get('unit_variant_names', {}): adt = x; break
         if x[0] in ('v', 'f'): x = x[1]
         elif x[0] in ('call', 'rcall', 'tostr'):
             args = x[2] if x[0] != 'tostr' else (x[1],)
